@@ -463,4 +463,943 @@ theorem C18_vec_len_stored (schema : Schema) (existing incoming merged : Obj)
         rw [vectorReaching_eq, hs]
         simpa [reachSegs, query_cons_obj k rest existing hk] using hv
 
+/-! ## vectors that reach a distance closure on a search -/
+
+theorem VS.and_ok (a b : VS) : a.and b = .ok ↔ a = .ok ∧ b = .ok := by
+  cases a <;> cases b <;> simp [VS.and]
+
+mutual
+theorem reach_ok (schema : Schema) : (q : Query) → q.validSchema schema = .ok →
+    ∀ r ∈ q.reach schema, (r.len : Int) = r.dim
+  | .mk property flat vamana text s i f sa ff vf tf and or => by
+    intro h r hr
+    unfold Query.validSchema at h
+    unfold Query.reach at hr
+    by_cases h1 : property = pAnd
+    · rw [if_pos h1] at h hr
+      exact reach_okL schema and h r hr
+    · by_cases h2 : property = pOr
+      · rw [if_neg h1, if_pos h2] at h hr
+        exact reach_okL schema or h r hr
+      · by_cases h3 : property = pId
+        · rw [if_neg h1, if_neg h2, if_pos h3] at hr; simp at hr
+        · rw [if_neg h1, if_neg h2, if_neg h3] at h hr
+          cases hl : lookup schema property with
+          | none => simp [hl] at hr
+          | some value =>
+            simp only [hl] at h hr
+            by_cases t1 : value.type = tVectorFlat
+            · rw [if_pos t1] at h hr
+              cases flat with
+              | none => simp at hr
+              | some o =>
+                cases hp : value.flat with
+                | none => simp [hp] at hr
+                | some p =>
+                  simp only [hp] at h hr
+                  split at h
+                  · simp at h
+                  · rename_i hlen
+                    rcases List.mem_append.mp hr with hr | hr
+                    · exact reach_okO schema ff h r hr
+                    · simp at hr; subst hr; simpa using hlen
+            · by_cases t2 : value.type = tVectorVamana
+              · rw [if_neg t1, if_pos t2] at h hr
+                cases vamana with
+                | none => simp at hr
+                | some o =>
+                  cases hp : value.vamana with
+                  | none => simp [hp] at hr
+                  | some p =>
+                    simp only [hp] at h hr
+                    split at h
+                    · simp at h
+                    · rename_i hlen
+                      rcases List.mem_append.mp hr with hr | hr
+                      · exact reach_okO schema vf h r hr
+                      · simp at hr; subst hr; simpa using hlen
+              · by_cases t3 : value.type = tText
+                · rw [if_neg t1, if_neg t2, if_pos t3] at h hr
+                  cases text with
+                  | none => simp at hr
+                  | some o => exact reach_okO schema tf h r hr
+                · rw [if_neg t1, if_neg t2, if_neg t3] at hr; simp at hr
+theorem reach_okL (schema : Schema) : (l : List Query) → validSchemaL schema l = .ok →
+    ∀ r ∈ reachL schema l, (r.len : Int) = r.dim
+  | [] => by intro _ r hr; simp [reachL] at hr
+  | q :: qs => by
+    intro h r hr
+    simp only [validSchemaL, VS.and_ok] at h
+    simp only [reachL] at hr
+    rcases List.mem_append.mp hr with hr | hr
+    · exact reach_ok schema q h.1 r hr
+    · exact reach_okL schema qs h.2 r hr
+theorem reach_okO (schema : Schema) : (o : Option Query) → validSchemaO schema o = .ok →
+    ∀ r ∈ reachO schema o, (r.len : Int) = r.dim
+  | none => by intro _ r hr; simp [reachO] at hr
+  | some q => by
+    intro h r hr
+    simp only [validSchemaO] at h
+    simp only [reachO] at hr
+    exact reach_ok schema q h r hr
+end
+
+/-- **C18_vec_len (searches).** If a search is accepted (v2: `Validate` + `ValidateSchema`; v1: the
+handler's own dimension check), every query vector `indexManager.Search` hands to a vector store's
+distance closure — at any depth of `_and` / `_or` / filter nesting — has exactly the dimension of
+the index it is handed to. -/
+theorem C18_vec_len_search (sp : Spec) (en : Enums) (ctx : Ctx) (req : Req) (schema : Schema) (r : SearchReq)
+    (h : (handle sp en ctx req).eff = some (.search schema r)) :
+    ∀ x ∈ r.query.reach schema, (x.len : Int) = x.dim := by
+  cases req with
+  | v2Search b =>
+    obtain ⟨c, _, _, _, hk⟩ := withCol_eff _ _ _ _ _ h
+    cases b with
+    | none => simp [reject] at hk
+    | some r0 =>
+      simp only at hk
+      split at hk
+      · simp [reject] at hk
+      · split at hk
+        · simp [reject] at hk
+        · simp at hk
+        · rename_i hvs
+          simp [accept] at hk
+          obtain ⟨rfl, rfl⟩ := hk
+          exact reach_ok _ _ hvs
+  | v1Search b =>
+    obtain ⟨c, _, _, hv1, hk⟩ := withCol_eff _ _ _ _ _ h
+    cases b with
+    | none => simp [reject] at hk
+    | some b =>
+      simp only at hk
+      split at hk
+      · simp [reject] at hk
+      · cases hd : v1Dim c.schema with
+        | none => simp [hd] at hk
+        | some dim =>
+          simp only [hd] at hk
+          split at hk
+          · simp [reject] at hk
+          · rename_i hlen
+            simp [accept] at hk
+            obtain ⟨rfl, rfl⟩ := hk
+            -- the query the v1 handler builds: one vamana leaf on "vector"
+            intro x hx
+            unfold v1Dim at hd
+            cases hl : lookup c.schema kVector with
+            | none => simp [hl] at hd
+            | some value =>
+              simp only [hl] at hd
+              cases hp : value.vamana with
+              | none => simp [hp] at hd
+              | some p =>
+                simp [hp] at hd
+                have hv := hv1 rfl
+                simp only [isV1Collection, hl, Bool.and_eq_true, decide_eq_true_eq] at hv
+                have hkv1 : kVector ≠ pAnd := by decide
+                have hkv2 : kVector ≠ pOr := by decide
+                have hkv3 : kVector ≠ pId := by decide
+                simp only [v1SearchReq, Query.reach, if_neg hkv1, if_neg hkv2, if_neg hkv3, hl, hv.1,
+                  if_neg tVamana_ne_tFlat, if_true, hp, reachO, List.nil_append, List.mem_singleton] at hx
+                subst hx
+                simp only at hlen ⊢
+                simp at hlen
+                omega
+  | v2Insert b | v2Update b | v1Insert b | v1Update b =>
+    obtain ⟨e, hc, hp⟩ := C18_vec_len sp en ctx _ _ h
+    -- these handlers never produce a search effect
+    obtain ⟨c, _, _, _, hk⟩ := withCol_eff _ _ _ _ _ h
+    cases b with
+    | none => simp [reject] at hk
+    | some pts =>
+      simp only at hk
+      (repeat' split at hk) <;> simp [reject, accept] at hk
+  | v2Delete b | v1Delete b =>
+    obtain ⟨c, _, _, _, hk⟩ := withCol_eff _ _ _ _ _ h
+    cases b with
+    | none => simp [reject] at hk
+    | some ids =>
+      simp only at hk
+      (repeat' split at hk) <;> simp [reject, accept] at hk
+  | v2List | v1List => simp [handle] at h
+  | v2Get | v1Get => obtain ⟨c, _, _, _, hk⟩ := withCol_eff _ _ _ _ _ h; simp at hk
+  | v2DeleteCol | v1DeleteCol => obtain ⟨c, _, _, _, hk⟩ := withCol_eff _ _ _ _ _ h; simp [accept] at hk
+  | v2Create b =>
+    simp only [handle, v2Create] at h
+    cases b with
+    | none => simp [reject] at h
+    | some b => simp only [createOutcome] at h; (repeat' split at h) <;> simp [reject, accept] at h
+  | v1Create b =>
+    simp only [handle, v1Create] at h
+    cases b with
+    | none => simp [reject] at h
+    | some b => simp only [createOutcome] at h; (repeat' split at h) <;> simp [reject, accept] at h
+
+/-! ## a refused request issues no write; no handler reaches a nil dereference -/
+
+/-- an answer either carries nothing for the cluster layer or is a 200 -/
+def Outcome.sane (o : Outcome) : Prop := o.eff = none ∨ o.status = 200
+
+theorem sane_withCol (rng : Range) (v1 : Bool) (ctx : Ctx) (k : ColCtx → Outcome) (hk : ∀ c, (k c).sane) :
+    (withCol rng v1 ctx k).sane := by
+  unfold withCol
+  (repeat' split) <;> first | exact hk _ | simp [Outcome.sane, reject]
+
+theorem sane_create (ctx : Ctx) (id : Str) (schema : Schema) : (createOutcome ctx id schema).sane := by
+  unfold createOutcome
+  (repeat' split) <;> simp [Outcome.sane, reject, accept]
+
+theorem handle_sane (sp : Spec) (en : Enums) (ctx : Ctx) (req : Req) : (handle sp en ctx req).sane := by
+  cases req with
+  | v2List | v1List => simp [handle, Outcome.sane]
+  | v2Create b =>
+    simp only [handle, v2Create]
+    (repeat' split) <;> first | exact sane_create _ _ _ | simp [Outcome.sane, reject]
+  | v1Create b =>
+    simp only [handle, v1Create]
+    (repeat' split) <;> first | exact sane_create _ _ _ | simp [Outcome.sane, reject]
+  | v2Get | v1Get => exact sane_withCol _ _ _ _ (fun _ => by simp [Outcome.sane])
+  | v2DeleteCol | v1DeleteCol => exact sane_withCol _ _ _ _ (fun _ => by simp [Outcome.sane, accept])
+  | v2Insert b =>
+    refine sane_withCol _ _ _ _ (fun c => ?_)
+    (repeat' split) <;> simp [Outcome.sane, reject, accept]
+  | v2Update b =>
+    refine sane_withCol _ _ _ _ (fun c => ?_)
+    (repeat' split) <;> simp [Outcome.sane, reject, accept]
+  | v2Delete b | v1Delete b =>
+    refine sane_withCol _ _ _ _ (fun c => ?_)
+    (repeat' split) <;> simp [Outcome.sane, reject, accept]
+  | v2Search b =>
+    refine sane_withCol _ _ _ _ (fun c => ?_)
+    (repeat' split) <;> simp [Outcome.sane, reject, accept]
+  | v1Insert b | v1Update b =>
+    refine sane_withCol _ _ _ _ (fun c => ?_)
+    (repeat' split) <;> simp [Outcome.sane, reject, accept]
+  | v1Search b =>
+    refine sane_withCol _ _ _ _ (fun c => ?_)
+    (repeat' split) <;> simp [Outcome.sane, reject, accept]
+
+/-- **C18_reject_pure.** On every endpoint, for every context and body: an answer other than 200
+(every 4xx in particular) hands nothing to the cluster layer — no write and no read is issued on
+the reject path; conversely whatever is handed on is answered 200 by the handler model. -/
+theorem C18_reject_pure (sp : Spec) (en : Enums) (ctx : Ctx) (req : Req) :
+    ((handle sp en ctx req).status ≠ 200 → (handle sp en ctx req).eff = none) ∧
+    (∀ e, (handle sp en ctx req).eff = some e → (handle sp en ctx req).status = 200) := by
+  have h := handle_sane sp en ctx req
+  constructor
+  · intro hs
+    rcases h with h | h
+    · exact h
+    · exact absurd h hs
+  · intro e he
+    rcases h with h | h
+    · simp [h] at he
+    · exact h
+
+theorem schema_valid_mem (sp : Spec) (en : Enums) (schema : Schema) (h : schema.valid sp en = true)
+    (prop : Str) (v : SchemaValue) (hl : lookup schema prop = some v) : v.valid sp en = true := by
+  have := lookup_mem schema prop v hl
+  simp only [Schema.valid, List.all_eq_true] at h
+  exact h _ this
+
+theorem valid_flat_some (sp : Spec) (en : Enums) (v : SchemaValue) (h : v.valid sp en = true) (ht : v.type = tVectorFlat) :
+    v.flat.isSome = true := by
+  unfold SchemaValue.valid at h
+  simp only [Bool.and_eq_true] at h
+  have h2 := h.2
+  rw [if_pos ht] at h2
+  cases hf : v.flat with
+  | none => simp [hf] at h2
+  | some _ => rfl
+
+theorem valid_vamana_some (sp : Spec) (en : Enums) (v : SchemaValue) (h : v.valid sp en = true) (ht : v.type = tVectorVamana) :
+    v.vamana.isSome = true := by
+  unfold SchemaValue.valid at h
+  simp only [Bool.and_eq_true] at h
+  have h2 := h.2
+  have hne : ¬ v.type = tVectorFlat := by rw [ht]; exact tVamana_ne_tFlat
+  rw [if_neg hne, if_pos ht] at h2
+  cases hf : v.vamana with
+  | none => simp [hf] at h2
+  | some _ => rfl
+
+theorem VS.and_ne_panic (a b : VS) (ha : a ≠ .panic) (hb : b ≠ .panic) : a.and b ≠ .panic := by
+  cases a <;> cases b <;> simp_all [VS.and]
+
+mutual
+theorem validSchema_no_panic (sp : Spec) (en : Enums) (schema : Schema) (hs : schema.valid sp en = true) :
+    (q : Query) → q.validSchema schema ≠ .panic
+  | .mk property flat vamana text s i f sa ff vf tf and or => by
+    unfold Query.validSchema
+    by_cases h1 : property = pAnd
+    · rw [if_pos h1]; exact validSchemaL_no_panic sp en schema hs and
+    · by_cases h2 : property = pOr
+      · rw [if_neg h1, if_pos h2]; exact validSchemaL_no_panic sp en schema hs or
+      · by_cases h3 : property = pId
+        · rw [if_neg h1, if_neg h2, if_pos h3]; simp
+        · rw [if_neg h1, if_neg h2, if_neg h3]
+          cases hl : lookup schema property with
+          | none => simp
+          | some value =>
+            have hv := schema_valid_mem sp en schema hs property value hl
+            simp only
+            by_cases t1 : value.type = tVectorFlat
+            · rw [if_pos t1]
+              cases flat with
+              | none => simp
+              | some o =>
+                have := valid_flat_some sp en value hv t1
+                cases hp : value.flat with
+                | none => simp [hp] at this
+                | some p =>
+                  simp only
+                  split
+                  · simp
+                  · exact validSchemaO_no_panic sp en schema hs ff
+            · by_cases t2 : value.type = tVectorVamana
+              · rw [if_neg t1, if_pos t2]
+                cases vamana with
+                | none => simp
+                | some o =>
+                  have := valid_vamana_some sp en value hv t2
+                  cases hp : value.vamana with
+                  | none => simp [hp] at this
+                  | some p =>
+                    simp only
+                    split
+                    · simp
+                    · exact validSchemaO_no_panic sp en schema hs vf
+              · rw [if_neg t1, if_neg t2]
+                by_cases t3 : value.type = tText
+                · rw [if_pos t3]
+                  cases text with
+                  | none => simp
+                  | some o => exact validSchemaO_no_panic sp en schema hs tf
+                · rw [if_neg t3]
+                  (repeat' split) <;> simp
+theorem validSchemaL_no_panic (sp : Spec) (en : Enums) (schema : Schema) (hs : schema.valid sp en = true) :
+    (l : List Query) → validSchemaL schema l ≠ .panic
+  | [] => by simp [validSchemaL]
+  | q :: qs => by
+    simp only [validSchemaL]
+    exact VS.and_ne_panic _ _ (validSchema_no_panic sp en schema hs q) (validSchemaL_no_panic sp en schema hs qs)
+theorem validSchemaO_no_panic (sp : Spec) (en : Enums) (schema : Schema) (hs : schema.valid sp en = true) :
+    (o : Option Query) → validSchemaO schema o ≠ .panic
+  | none => by simp [validSchemaO]
+  | some q => by simp only [validSchemaO]; exact validSchema_no_panic sp en schema hs q
+end
+
+theorem isV1_dim (schema : Schema) (h : isV1Collection schema = true) : (v1Dim schema).isSome = true := by
+  unfold isV1Collection at h
+  unfold v1Dim
+  cases hl : lookup schema kVector with
+  | none => simp [hl] at h
+  | some v =>
+    simp only [hl, Bool.and_eq_true] at h
+    cases hv : v.vamana with
+    | none => simp [hv] at h
+    | some p => simp [hv]
+
+/-- **C18_no_panic.** Status 0 stands for a nil dereference in the Go handler (`ValidateSchema`
+reading the index parameters of the schema entry, the v1 handlers reading
+`IndexSchema["vector"].VectorVamana`).  If the collection's schema passed `IndexSchema.Validate`
+when it was created, no request to any endpoint reaches one.  (On the pinned tree the v1
+middleware did not check `isV1Collection`: DESIGN section 8 no. 11.) -/
+theorem C18_no_panic (sp : Spec) (en : Enums) (ctx : Ctx) (req : Req)
+    (hs : ∀ c, ctx.col = some c → c.schema.valid sp en = true) : (handle sp en ctx req).status ≠ 0 := by
+  have wc : ∀ rng v1 (k : ColCtx → Outcome), (∀ c, ctx.col = some c → (v1 = true → isV1Collection c.schema = true) → (k c).status ≠ 0) →
+      (withCol rng v1 ctx k).status ≠ 0 := by
+    intro rng v1 k hk
+    unfold withCol
+    split
+    · simp [reject]
+    · cases hc : ctx.col with
+      | none => simp [reject]
+      | some c =>
+        simp only
+        split
+        · simp [reject]
+        · rename_i hv
+          apply hk c hc
+          intro h1; subst h1; simpa using hv
+  cases req with
+  | v2List | v1List => simp [handle]
+  | v2Create b =>
+    simp only [handle, v2Create, createOutcome]
+    (repeat' split) <;> simp [reject, accept]
+  | v1Create b =>
+    simp only [handle, v1Create, createOutcome]
+    (repeat' split) <;> simp [reject, accept]
+  | v2Get | v1Get => exact wc _ _ _ (fun _ _ _ => by simp)
+  | v2DeleteCol | v1DeleteCol => exact wc _ _ _ (fun _ _ _ => by simp [accept])
+  | v2Insert b | v2Update b | v2Delete b | v1Delete b =>
+    refine wc _ _ _ (fun c _ _ => ?_)
+    (repeat' split) <;> simp [reject, accept]
+  | v2Search b =>
+    refine wc _ _ _ (fun c hc _ => ?_)
+    cases b with
+    | none => simp [reject]
+    | some r =>
+      simp only
+      split
+      · simp [reject]
+      · have := validSchema_no_panic sp en c.schema (hs c hc) r.query
+        cases hvs : r.query.validSchema c.schema with
+        | ok => simp [accept]
+        | bad => simp [reject]
+        | panic => exact absurd hvs this
+  | v1Insert b | v1Update b =>
+    refine wc _ _ _ (fun c _ hv => ?_)
+    have hd := isV1_dim c.schema (hv rfl)
+    cases hdim : v1Dim c.schema with
+    | none => simp [hdim] at hd
+    | some dim =>
+      (repeat' split) <;> simp_all [reject, accept]
+  | v1Search b =>
+    refine wc _ _ _ (fun c _ hv => ?_)
+    have hd := isV1_dim c.schema (hv rfl)
+    cases hdim : v1Dim c.schema with
+    | none => simp [hdim] at hd
+    | some dim =>
+      (repeat' split) <;> simp_all [reject, accept]
+
+/-! ## paging arithmetic -/
+
+theorem toInt_gsmin (a b : BitVec 64) : (FactsC18.smin a b).toInt = if a.toInt < b.toInt then a.toInt else b.toInt := by
+  unfold FactsC18.smin
+  by_cases h : a.toInt < b.toInt <;> simp [BitVec.slt, h]
+theorem toInt_gsmax (a b : BitVec 64) : (FactsC18.smax a b).toInt = if a.toInt < b.toInt then b.toInt else a.toInt := by
+  unfold FactsC18.smax
+  by_cases h : a.toInt < b.toInt <;> simp [BitVec.slt, h]
+theorem toInt_smin (a b : BitVec 64) : (smin a b).toInt = if a.toInt < b.toInt then a.toInt else b.toInt := by
+  unfold smin
+  by_cases h : a.toInt < b.toInt <;> simp [BitVec.slt, h]
+
+set_option linter.unusedSimpArgs false in
+/-- **C18_slice_bounds.** About the arithmetic GENERATED from the working tree's `Shard.SearchPoints`
+(`finalResults[sliceLo:sliceHi]`, Go `int` = `BitVec 64` with wrapping `+`/`-`): for every offset ≥ 0
+(validated), every limit ≥ 0 (validated 1..100, then clamped by the cluster layer, or replaced by
+`len`) and every slice length, `0 ≤ lo ≤ hi ≤ len` — the slice expression cannot panic. No
+hypothesis that `offset + limit` does not wrap. -/
+theorem C18_slice_bounds (off lim n : BitVec 64) (ho : 0 ≤ off.toInt) (hl : 0 ≤ lim.toInt) (hn : 0 ≤ n.toInt) :
+    sliceOk (FactsC18.sliceLo off lim n) (FactsC18.sliceHi off lim n) n := by
+  have := BitVec.toInt_lt (x := n); have := BitVec.toInt_lt (x := off); have := BitVec.toInt_lt (x := lim)
+  simp only [sliceOk, FactsC18.sliceLo, FactsC18.sliceHi, toInt_gsmin, toInt_gsmax, BitVec.toInt_add, BitVec.toInt_sub, Int.bmod_def]
+  (repeat' split) <;> omega
+
+set_option linter.unusedSimpArgs false in
+/-- the arithmetic of the PINNED tree, `finalResults[min(off,n) : min(off+lim,n)]`: in bounds IFF
+`offset + limit` does not wrap — the excluded inputs are DESIGN section 8 no. 10 -/
+theorem C18_slice_bounds_pinned (off lim n : BitVec 64) (ho : 0 ≤ off.toInt) (hl : 0 ≤ lim.toInt) (hn : 0 ≤ n.toInt) :
+    sliceOk (pinnedLo off lim n) (pinnedHi off lim n) n ↔ off.toInt + lim.toInt < 2 ^ 63 := by
+  have := BitVec.toInt_lt (x := n); have := BitVec.toInt_lt (x := off); have := BitVec.toInt_lt (x := lim)
+  simp only [sliceOk, pinnedLo, pinnedHi, toInt_smin, BitVec.toInt_add, BitVec.toInt_sub, Int.bmod_def]
+  (repeat' split) <;> omega
+
+/-- the witness of the defect: offset = MaxInt64, limit = 100 pass validation, the pinned slice panics -/
+example : ¬ sliceOk (pinnedLo 0x7fffffffffffffff#64 100#64 1#64) (pinnedHi 0x7fffffffffffffff#64 100#64 1#64) 1#64 := by
+  unfold sliceOk; decide
+example : Spec.documented.offset.viol 0x7fffffffffffffff = false ∧ Spec.documented.limit.viol 100 = false := by decide
+/-- and the same inputs are fine with the arithmetic of the working tree -/
+example : sliceOk (FactsC18.sliceLo 0x7fffffffffffffff#64 100#64 1#64) (FactsC18.sliceHi 0x7fffffffffffffff#64 100#64 1#64) 1#64 := by
+  unfold sliceOk; decide
+
+/-! ## accepted requests are well-formed -/
+
+mutual
+/-- the preconditions `indexManager.Search` (shard/index/search.go) and the indexes behind it assume
+of a query: the property is indexed, the options for that index type are present, the operator
+is one the index implements, limits are within range, vectors have the index dimension, `_id`
+values parse as UUIDs, `_and` / `_or` have at least one sub-query; recursively for filters. -/
+def Query.dispatchWF (sp : Spec) (en : Enums) (schema : Schema) : Query → Bool
+  | .mk property flat vamana text string integer float stringArray ff vf tf and or =>
+    if property = pAnd then !and.isEmpty && dispatchWFL sp en schema and
+    else if property = pOr then !or.isEmpty && dispatchWFL sp en schema or
+    else if property = pId then idClauseValid string stringArray
+    else match lookup schema property with
+      | none => false
+      | some value =>
+        if value.type = tVectorFlat then
+          match flat, value.flat with
+          | some o, some p => (o.vector.length : Int) == p.vectorSize && en.vecOps.contains o.operator &&
+              !sp.qFlatLimit.viol o.limit && dispatchWFO sp en schema ff
+          | _, _ => false
+        else if value.type = tVectorVamana then
+          match vamana, value.vamana with
+          | some o, some p => (o.vector.length : Int) == p.vectorSize && en.vecOps.contains o.operator &&
+              !sp.qVamanaLimit.viol o.limit && !sp.qVamanaSearchSize.viol o.searchSize && decide (o.limit ≤ o.searchSize) &&
+              dispatchWFO sp en schema vf
+          | _, _ => false
+        else if value.type = tText then
+          match text with
+          | some o => en.textOps.contains o.operator && !sp.qTextLimit.viol o.limit && !o.value.isEmpty && dispatchWFO sp en schema tf
+          | none => false
+        else if value.type = tString then
+          match string with | some o => en.strOps.contains o.operator && !o.value.isEmpty | none => false
+        else if value.type = tStringArray then
+          match stringArray with | some o => en.saOps.contains o.operator && !o.value.isEmpty | none => false
+        else if value.type = tInteger then
+          match integer with | some o => en.intOps.contains o.operator | none => false
+        else if value.type = tFloat then
+          match float with | some o => en.floatOps.contains o.operator | none => false
+        else false
+def dispatchWFL (sp : Spec) (en : Enums) (schema : Schema) : List Query → Bool
+  | [] => true
+  | q :: qs => q.dispatchWF sp en schema && dispatchWFL sp en schema qs
+def dispatchWFO (sp : Spec) (en : Enums) (schema : Schema) : Option Query → Bool
+  | none => true
+  | some q => q.dispatchWF sp en schema
+end
+
+theorem optAll_some {α} (f : α → Bool) (o : Option α) (x : α) (h : optAll f o = true) (ho : o = some x) : f x = true := by
+  subst ho; exact h
+
+mutual
+theorem dispatchWF_of_valid (sp : Spec) (en : Enums) (schema : Schema) (hs : schema.valid sp en = true) :
+    (q : Query) → q.valid sp en = true → q.validSchema schema = .ok → q.dispatchWF sp en schema = true
+  | .mk property flat vamana text s i f sa ff vf tf and or => by
+    intro hv hvs
+    unfold Query.valid at hv
+    simp only [Bool.and_eq_true] at hv
+    obtain ⟨⟨⟨⟨⟨⟨⟨⟨⟨⟨⟨⟨⟨⟨⟨hne, hflat⟩, hff⟩, hvam⟩, hvf⟩, htext⟩, htf⟩, hstr⟩, hint⟩, hflt⟩, hsa⟩, hand⟩, hor⟩, handL⟩, horL⟩, hid⟩ := hv
+    unfold Query.validSchema at hvs
+    unfold Query.dispatchWF
+    by_cases h1 : property = pAnd
+    · rw [if_pos h1] at hvs ⊢
+      simp only [h1, decide_true, Bool.true_and, Bool.not_eq_true'] at hand
+      simp only [Bool.and_eq_true, Bool.not_eq_true', hand, true_and]
+      exact dispatchWFL_of_valid sp en schema hs and handL hvs
+    · by_cases h2 : property = pOr
+      · rw [if_neg h1, if_pos h2] at hvs ⊢
+        simp only [h2, decide_true, Bool.true_and, Bool.not_eq_true'] at hor
+        simp only [Bool.and_eq_true, Bool.not_eq_true', hor, true_and]
+        exact dispatchWFL_of_valid sp en schema hs or horL hvs
+      · by_cases h3 : property = pId
+        · rw [if_neg h1, if_neg h2, if_pos h3]
+          rw [if_pos h3] at hid
+          exact hid
+        · rw [if_neg h1, if_neg h2, if_neg h3] at hvs ⊢
+          cases hl : lookup schema property with
+          | none => simp [hl] at hvs
+          | some value =>
+            simp only [hl] at hvs ⊢
+            by_cases t1 : value.type = tVectorFlat
+            · rw [if_pos t1] at hvs ⊢
+              cases hfl : flat with
+              | none => simp [hfl] at hvs
+              | some o =>
+                simp only [hfl] at hvs ⊢
+                cases hp : value.flat with
+                | none => simp [hp] at hvs
+                | some p =>
+                  simp only [hp] at hvs ⊢
+                  split at hvs
+                  · simp at hvs
+                  · rename_i hlen
+                    have ho := optAll_some _ _ o hflat hfl
+                    simp only [flatOptsValid, Bool.and_eq_true, Bool.not_eq_true'] at ho
+                    simp only [Bool.and_eq_true, Bool.not_eq_true', beq_iff_eq]
+                    refine ⟨⟨⟨by simpa using hlen, ho.1.2⟩, ho.2⟩, ?_⟩
+                    exact dispatchWFO_of_valid sp en schema hs ff hff hvs
+            · by_cases t2 : value.type = tVectorVamana
+              · rw [if_neg t1, if_pos t2] at hvs ⊢
+                cases hvm : vamana with
+                | none => simp [hvm] at hvs
+                | some o =>
+                  simp only [hvm] at hvs ⊢
+                  cases hp : value.vamana with
+                  | none => simp [hp] at hvs
+                  | some p =>
+                    simp only [hp] at hvs ⊢
+                    split at hvs
+                    · simp at hvs
+                    · rename_i hlen
+                      have ho := optAll_some _ _ o hvam hvm
+                      simp only [vamanaOptsValid, Bool.and_eq_true, Bool.not_eq_true', decide_eq_false_iff_not, Int.not_lt] at ho
+                      simp only [Bool.and_eq_true, Bool.not_eq_true', beq_iff_eq, decide_eq_true_eq]
+                      refine ⟨⟨⟨⟨⟨by simpa using hlen, ho.1.1.1.2⟩, ho.1.2⟩, ho.1.1.2⟩, ho.2⟩, ?_⟩
+                      exact dispatchWFO_of_valid sp en schema hs vf hvf hvs
+              · rw [if_neg t1, if_neg t2] at hvs ⊢
+                by_cases t3 : value.type = tText
+                · rw [if_pos t3] at hvs ⊢
+                  cases htx : text with
+                  | none => simp [htx] at hvs
+                  | some o =>
+                    simp only [htx] at hvs ⊢
+                    have ho := optAll_some _ _ o htext htx
+                    simp only [textOptsValid, Bool.and_eq_true, Bool.not_eq_true'] at ho
+                    simp only [Bool.and_eq_true, Bool.not_eq_true']
+                    exact ⟨⟨⟨ho.1.2, ho.2⟩, ho.1.1⟩, dispatchWFO_of_valid sp en schema hs tf htf hvs⟩
+                · rw [if_neg t3] at hvs ⊢
+                  by_cases t4 : value.type = tString
+                  · rw [if_pos t4] at hvs ⊢
+                    cases hst : s with
+                    | none => simp [hst] at hvs
+                    | some o =>
+                      have ho := optAll_some _ _ o hstr hst
+                      simp only [strOptsValid, Bool.and_eq_true, Bool.not_eq_true'] at ho
+                      simp only [Bool.and_eq_true, Bool.not_eq_true']
+                      exact ⟨ho.1.2, ho.1.1⟩
+                  · rw [if_neg t4] at hvs ⊢
+                    by_cases t5 : value.type = tStringArray
+                    · rw [if_pos t5] at hvs ⊢
+                      cases hst : sa with
+                      | none => simp [hst] at hvs
+                      | some o =>
+                        have ho := optAll_some _ _ o hsa hst
+                        simp only [saOptsValid, Bool.and_eq_true, Bool.not_eq_true'] at ho
+                        simp only [Bool.and_eq_true, Bool.not_eq_true']
+                        exact ⟨ho.2, ho.1⟩
+                    · rw [if_neg t5] at hvs ⊢
+                      by_cases t6 : value.type = tInteger
+                      · rw [if_pos t6] at hvs ⊢
+                        cases hst : i with
+                        | none => simp [hst] at hvs
+                        | some o =>
+                          have ho := optAll_some _ _ o hint hst
+                          simp only [intOptsValid, Bool.and_eq_true] at ho
+                          exact ho.1
+                      · rw [if_neg t6] at hvs ⊢
+                        by_cases t7 : value.type = tFloat
+                        · rw [if_pos t7] at hvs ⊢
+                          cases hst : f with
+                          | none => simp [hst] at hvs
+                          | some o =>
+                            have ho := optAll_some _ _ o hflt hst
+                            simp only [floatOptsValid, Bool.and_eq_true] at ho
+                            exact ho.1
+                        · rw [if_neg t7] at hvs
+                          simp at hvs
+theorem dispatchWFL_of_valid (sp : Spec) (en : Enums) (schema : Schema) (hs : schema.valid sp en = true) :
+    (l : List Query) → validL sp en l = true → validSchemaL schema l = .ok → dispatchWFL sp en schema l = true
+  | [] => by intro _ _; rfl
+  | q :: qs => by
+    intro hv hvs
+    simp only [validL, Bool.and_eq_true] at hv
+    simp only [validSchemaL, VS.and_ok] at hvs
+    simp only [dispatchWFL, Bool.and_eq_true]
+    exact ⟨dispatchWF_of_valid sp en schema hs q hv.1 hvs.1, dispatchWFL_of_valid sp en schema hs qs hv.2 hvs.2⟩
+theorem dispatchWFO_of_valid (sp : Spec) (en : Enums) (schema : Schema) (hs : schema.valid sp en = true) :
+    (o : Option Query) → validO sp en o = true → validSchemaO schema o = .ok → dispatchWFO sp en schema o = true
+  | none => by intro _ _; rfl
+  | some q => by
+    intro hv hvs
+    simp only [validO] at hv
+    simp only [validSchemaO] at hvs
+    simp only [dispatchWFO]
+    exact dispatchWF_of_valid sp en schema hs q hv hvs
+end
+
+/-- what the cluster / shard layer may assume of what a handler hands on (documented limits) -/
+def Effect.wf (ctx : Ctx) : Effect → Prop
+  | .createCollection id schema =>
+      schema.valid Spec.documented Enums.documented = true ∧ ctx.exists_ = false ∧ ctx.ncols < ctx.plan.maxCollections ∧
+      3 ≤ id.length ∧ id.length ≤ 24
+  | .deleteCollection => ctx.col.isSome = true
+  | .insertPoints pts => ∃ c, ctx.col = some c ∧ 1 ≤ pts.length ∧ pts.length ≤ 10000 ∧
+      c.pointCount + pts.length ≤ ctx.plan.maxPoints ∧
+      ∀ p ∈ pts, (p.data.encSize : Int) ≤ ctx.plan.maxPointSize ∧ (∀ s, p.id = some s → uuidOk s = true)
+  | .updatePoints pts => ∃ c, ctx.col = some c ∧ 1 ≤ pts.length ∧ pts.length ≤ 100 ∧
+      ∀ p ∈ pts, (p.data.encSize : Int) ≤ ctx.plan.maxPointSize ∧ (∃ s, p.id = some s ∧ uuidOk s = true)
+  | .deletePoints ids => ctx.col.isSome = true ∧ 1 ≤ ids.length ∧ ids.length ≤ 100 ∧ ∀ s ∈ ids, uuidOk s = true
+  | .search schema r => ∃ c, ctx.col = some c ∧ c.schema = schema ∧
+      (schema.valid Spec.documented Enums.documented = true → r.query.dispatchWF Spec.documented Enums.documented schema = true) ∧
+      0 ≤ r.offset ∧ 1 ≤ r.limit ∧ r.limit ≤ 100 ∧ r.sort.length ≤ 10 ∧ ∀ so ∈ r.sort, so.property ≠ []
+
+theorem viol_r (lo hi x : Int) : (r lo hi).viol x = false ↔ lo ≤ x ∧ x ≤ hi := by
+  simp [r, Range.viol]
+
+theorem viol_lo (lo x : Int) : (Range.mk (some lo) none).viol x = false ↔ lo ≤ x := by
+  simp [Range.viol]
+
+theorem viol_hi (hi x : Int) : (Range.mk none (some hi)).viol x = false ↔ x ≤ hi := by
+  simp [Range.viol]
+
+theorem v1Schema_valid (b : V1Create) (h1 : Spec.documented.v1CreateVecSize.viol b.vectorSize = false)
+    (h2 : Enums.documented.v1Metrics.contains b.metric = true) :
+    (v1Schema b).valid Spec.documented Enums.documented = true := by
+  have hm : Enums.documented.metrics.contains b.metric = true ∧ b.metric ≠ mHaversine := by
+    simp only [Enums.documented, List.contains_iff_mem, List.mem_cons, List.not_mem_nil, or_false] at h2 ⊢
+    rcases h2 with h | h | h <;> (rw [h]; decide)
+  have hv : Spec.documented.vamanaVecSize.viol b.vectorSize = false := h1
+  simp only [Schema.valid, v1Schema, List.all_cons, List.all_nil, Bool.and_true, SchemaValue.valid, VamanaP.valid,
+    optQuantValid, hv, hm.1, hm.2, Bool.and_eq_true]
+  refine ⟨by decide, ?_⟩
+  rw [if_neg tVamana_ne_tFlat, if_pos True.intro]
+  simp only [decide_false, Bool.false_and, Bool.not_false, Bool.true_and, Bool.and_true]
+  decide
+
+theorem mapAll_forall {α β} (f : α → Option β) (P : β → Prop) (l : List α) (rs : List β) (h : mapAll f l = some rs)
+    (hp : ∀ x y, x ∈ l → f x = some y → P y) : ∀ y ∈ rs, P y := by
+  intro y hy
+  obtain ⟨x, hx, hf⟩ := mapAll_mem f l rs h y hy
+  exact hp x y hx hf
+
+theorem v1StorePoint_id (schema : Schema) (dim maxSize : Int) (p : V1Point) (spt : StoredPoint)
+    (h : v1StorePoint schema dim maxSize p = some spt) : spt.id = if p.id.isEmpty then none else some p.id := by
+  unfold v1StorePoint at h
+  (repeat' split at h) <;> simp_all
+  all_goals (subst h; rfl)
+
+/-- **C18_accept_wf.** With the documented limits (pinned to the source by `C18_pin_limits`,
+`C18_pin_enums`): whatever a handler model hands to the cluster layer satisfies the preconditions the
+shard-level code assumes — ids parse as UUIDs (`uuid.MustParse` in the handlers cannot panic),
+batch sizes and point sizes are within the plan, the collection exists; for a search: every leaf
+the index manager dispatches addresses an indexed property with the options of that index type
+present, an operator that index implements, limits / search sizes within range and
+`limit ≤ searchSize`, vectors of the index dimension, `_and` / `_or` non-empty, `_id` values
+parsing as UUIDs; `0 ≤ offset`, `1 ≤ limit ≤ 100`, at most 10 sort keys, none empty.
+(`select` is not bounded by the code, hence not here.) -/
+theorem C18_accept_wf (ctx : Ctx) (req : Req) (e : Effect)
+    (h : (handle Spec.documented Enums.documented ctx req).eff = some e) : e.wf ctx := by
+  cases req with
+  | v2List | v1List => simp [handle] at h
+  | v2Get | v1Get => obtain ⟨c, _, _, _, hk⟩ := withCol_eff _ _ _ _ _ h; simp at hk
+  | v2DeleteCol | v1DeleteCol =>
+    obtain ⟨c, hc, _, _, hk⟩ := withCol_eff _ _ _ _ _ h
+    simp [accept] at hk; subst hk
+    simp [Effect.wf, hc]
+  | v2Create b =>
+    simp only [handle, v2Create] at h
+    cases b with
+    | none => simp [reject] at h
+    | some b =>
+      simp only at h
+      split at h
+      · simp [reject] at h
+      · rename_i hv
+        simp only [Bool.or_eq_true, not_or, Bool.not_eq_true, Bool.not_eq_false'] at hv
+        unfold createOutcome at h
+        split at h
+        · simp [reject] at h
+        · rename_i hex
+          split at h
+          · simp [reject] at h
+          · rename_i hq
+            simp [accept] at h; subst h
+            have := (viol_r 3 24 _).mp hv.1.1
+            refine ⟨by simpa using hv.2, by simpa using hex, by omega, ?_, ?_⟩ <;> omega
+  | v1Create b =>
+    simp only [handle, v1Create] at h
+    cases b with
+    | none => simp [reject] at h
+    | some b =>
+      simp only at h
+      split at h
+      · simp [reject] at h
+      · rename_i hv
+        simp only [Bool.or_eq_true, not_or, Bool.not_eq_true, Bool.not_eq_false'] at hv
+        unfold createOutcome at h
+        split at h
+        · simp [reject] at h
+        · rename_i hex
+          split at h
+          · simp [reject] at h
+          · rename_i hq
+            simp [accept] at h; subst h
+            have := (viol_r 3 16 _).mp hv.1.1.1
+            refine ⟨v1Schema_valid b hv.1.2 (by simpa using hv.2), by simpa using hex, by omega, ?_, ?_⟩ <;> omega
+  | v2Insert b =>
+    obtain ⟨c, hc, _, _, hk⟩ := withCol_eff _ _ _ _ _ h
+    cases b with
+    | none => simp [reject] at hk
+    | some pts =>
+      simp only at hk
+      split at hk
+      · simp [reject] at hk
+      · rename_i hn
+        cases hm : mapAll (v2InsertPoint c.schema ctx.plan.maxPointSize) pts with
+        | none => simp [hm, reject] at hk
+        | some sps =>
+          simp only [hm] at hk
+          split at hk
+          · simp [reject] at hk
+          · rename_i hq
+            simp [accept] at hk; subst hk
+            have hlen := mapAll_length _ _ _ hm
+            have hn2 : Spec.documented.v2Insert.viol (pts.length : Int) = false := by simpa using hn
+            have := (viol_r 1 10000 _).mp hn2
+            refine ⟨c, hc, by omega, by omega, by rw [hlen]; omega, ?_⟩
+            exact mapAll_forall _ _ _ _ hm (fun x y _ hxy => (vecInv_v2InsertPoint _ _ _ _ hxy).2)
+  | v2Update b =>
+    obtain ⟨c, hc, _, _, hk⟩ := withCol_eff _ _ _ _ _ h
+    cases b with
+    | none => simp [reject] at hk
+    | some pts =>
+      simp only at hk
+      split at hk
+      · simp [reject] at hk
+      · rename_i hn
+        cases hm : mapAll (v2UpdatePoint c.schema ctx.plan.maxPointSize) pts with
+        | none => simp [hm, reject] at hk
+        | some sps =>
+          simp [hm, accept] at hk; subst hk
+          have hlen := mapAll_length _ _ _ hm
+          have hn2 : Spec.documented.v2Update.viol (pts.length : Int) = false := by simpa using hn
+          have := (viol_r 1 100 _).mp hn2
+          refine ⟨c, hc, by omega, by omega, ?_⟩
+          exact mapAll_forall _ _ _ _ hm (fun x y _ hxy => (vecInv_v2UpdatePoint _ _ _ _ hxy).2)
+  | v2Delete b | v1Delete b =>
+    obtain ⟨c, hc, _, _, hk⟩ := withCol_eff _ _ _ _ _ h
+    cases b with
+    | none => simp [reject] at hk
+    | some ids =>
+      simp only at hk
+      split at hk
+      · simp [reject] at hk
+      · rename_i hn
+        simp only [Bool.or_eq_true, not_or, Bool.not_eq_true, Bool.not_eq_false'] at hn
+        simp [accept] at hk; subst hk
+        have := (viol_r 1 100 _).mp hn.1
+        refine ⟨by simp [hc], by omega, by omega, ?_⟩
+        simpa [List.all_eq_true] using hn.2
+  | v2Search b =>
+    obtain ⟨c, hc, _, _, hk⟩ := withCol_eff _ _ _ _ _ h
+    cases b with
+    | none => simp [reject] at hk
+    | some r0 =>
+      simp only at hk
+      split at hk
+      · simp [reject] at hk
+      · rename_i hv
+        split at hk
+        · simp [reject] at hk
+        · simp at hk
+        · rename_i hvs
+          simp [accept] at hk
+          obtain ⟨rfl, rfl⟩ := hk
+          have hv' : r0.valid Spec.documented Enums.documented = true := by simpa using hv
+          simp only [SearchReq.valid, Bool.and_eq_true, Bool.not_eq_true'] at hv'
+          obtain ⟨⟨⟨⟨hq, hsl⟩, hsp⟩, hoff⟩, hlim⟩ := hv'
+          have h1 := (viol_lo 0 _).mp hoff
+          have h2 := (viol_r 1 100 _).mp hlim
+          have h3 := (viol_hi 10 _).mp hsl
+          refine ⟨c, hc, rfl, fun hs => dispatchWF_of_valid _ _ _ hs _ hq hvs, h1, h2.1, h2.2, by omega, ?_⟩
+          intro so hso
+          have := (List.all_eq_true.mp hsp) so hso
+          intro hempty
+          simp [hempty] at this
+  | v1Insert b =>
+    obtain ⟨c, hc, _, _, hk⟩ := withCol_eff _ _ _ _ _ h
+    cases b with
+    | none => simp [reject] at hk
+    | some pts =>
+      simp only at hk
+      split at hk
+      · simp [reject] at hk
+      · rename_i hn
+        simp only [Bool.or_eq_true, not_or, Bool.not_eq_true, Bool.not_eq_false'] at hn
+        cases hd : v1Dim c.schema with
+        | none => simp [hd] at hk
+        | some dim =>
+          simp only [hd] at hk
+          cases hm : mapAll (v1StorePoint c.schema dim ctx.plan.maxPointSize) pts with
+          | none => simp [hm, reject] at hk
+          | some sps =>
+            simp only [hm, Bool.false_eq_true, if_false] at hk
+            split at hk
+            · simp [reject] at hk
+            · rename_i hq
+              simp [accept] at hk; subst hk
+              have hlen := mapAll_length _ _ _ hm
+              have := (viol_r 1 10000 _).mp hn.1
+              refine ⟨c, hc, by omega, by omega, by rw [hlen]; omega, ?_⟩
+              refine mapAll_forall _ _ _ _ hm (fun x y hx hxy => ⟨(vecInv_v1StorePoint _ _ _ _ _ hxy).2.1, ?_⟩)
+              intro s hs
+              rw [v1StorePoint_id _ _ _ _ _ hxy] at hs
+              have hvx := (List.all_eq_true.mp hn.2) x hx
+              simp only [v1PointValid, Bool.false_eq_true, if_false, Bool.and_eq_true, Bool.or_eq_true] at hvx
+              split at hs
+              · simp at hs
+              · rename_i hne
+                simp at hs; subst hs
+                rcases hvx.1 with h0 | h0
+                · exact absurd h0 hne
+                · exact h0
+  | v1Update b =>
+    obtain ⟨c, hc, _, _, hk⟩ := withCol_eff _ _ _ _ _ h
+    cases b with
+    | none => simp [reject] at hk
+    | some pts =>
+      simp only at hk
+      split at hk
+      · simp [reject] at hk
+      · rename_i hn
+        simp only [Bool.or_eq_true, not_or, Bool.not_eq_true, Bool.not_eq_false'] at hn
+        cases hd : v1Dim c.schema with
+        | none => simp [hd] at hk
+        | some dim =>
+          simp only [hd] at hk
+          cases hm : mapAll (v1StorePoint c.schema dim ctx.plan.maxPointSize) pts with
+          | none => simp [hm, reject] at hk
+          | some sps =>
+            simp [hm, accept] at hk; subst hk
+            have hlen := mapAll_length _ _ _ hm
+            have := (viol_r 1 100 _).mp hn.1
+            refine ⟨c, hc, by omega, by omega, ?_⟩
+            refine mapAll_forall _ _ _ _ hm (fun x y hx hxy => ⟨(vecInv_v1StorePoint _ _ _ _ _ hxy).2.1, ?_⟩)
+            have hvx := (List.all_eq_true.mp hn.2) x hx
+            simp only [v1PointValid, if_true, Bool.and_eq_true] at hvx
+            rw [v1StorePoint_id _ _ _ _ _ hxy]
+            have hne : x.id.isEmpty = false := by
+              cases hxi : x.id with
+              | nil => rw [hxi] at hvx; simp [uuidOk] at hvx
+              | cons a as => rfl
+            exact ⟨x.id, by simp [hne], hvx.1⟩
+  | v1Search b =>
+    obtain ⟨c, hc, _, hv1, hk⟩ := withCol_eff _ _ _ _ _ h
+    cases b with
+    | none => simp [reject] at hk
+    | some b =>
+      simp only at hk
+      split at hk
+      · simp [reject] at hk
+      · rename_i hn
+        simp only [Bool.or_eq_true, not_or, Bool.not_eq_true] at hn
+        cases hd : v1Dim c.schema with
+        | none => simp [hd] at hk
+        | some dim =>
+          simp only [hd] at hk
+          split at hk
+          · simp [reject] at hk
+          · rename_i hlen
+            simp [accept] at hk
+            obtain ⟨rfl, rfl⟩ := hk
+            have hl := (viol_r 0 75 _).mp hn.2
+            have hvl := (viol_r 1 2000 _).mp hn.1
+            have hlim : 1 ≤ (v1SearchReq b).limit ∧ (v1SearchReq b).limit ≤ 75 := by
+              simp only [v1SearchReq]
+              by_cases hz : b.limit = 0
+              · simp [hz]
+              · have : (b.limit == 0) = false := by simpa using hz
+                simp only [this]; constructor <;> omega
+            refine ⟨c, hc, rfl, ?_, by simp [v1SearchReq], hlim.1, by omega, by simp [v1SearchReq], by simp [v1SearchReq]⟩
+            intro _
+            -- the single vamana leaf on "vector"
+            unfold v1Dim at hd
+            cases hlk : lookup c.schema kVector with
+            | none => simp [hlk] at hd
+            | some value =>
+              simp only [hlk] at hd
+              cases hp : value.vamana with
+              | none => simp [hp] at hd
+              | some p =>
+                simp [hp] at hd
+                have hv := hv1 rfl
+                simp only [isV1Collection, hlk, Bool.and_eq_true, decide_eq_true_eq] at hv
+                have hkv1 : kVector ≠ pAnd := by decide
+                have hkv2 : kVector ≠ pOr := by decide
+                have hkv3 : kVector ≠ pId := by decide
+                have hq : (v1SearchReq b).query = .mk kVector none (some ⟨b.vector, S "near", 75, (v1SearchReq b).limit, none⟩)
+                    none none none none none none none none [] [] := rfl
+                rw [hq]
+                generalize (v1SearchReq b).limit = L at hlim
+                simp only [Query.dispatchWF, if_neg hkv1, if_neg hkv2, if_neg hkv3, hlk, hv.1,
+                  if_neg tVamana_ne_tFlat, if_true, hp, dispatchWFO, Bool.and_true, Bool.and_eq_true, beq_iff_eq,
+                  Bool.not_eq_true', decide_eq_true_eq]
+                simp at hlen
+                refine ⟨⟨⟨⟨by omega, by decide⟩, ?_⟩, by decide⟩, hlim.2⟩
+                exact (viol_r 1 75 _).mpr hlim
+
 end Sema.C18
